@@ -9,6 +9,7 @@ import (
 
 	"github.com/q191201771/lal/pkg/base"
 	"github.com/q191201771/lal/pkg/httpflv"
+	"github.com/q191201771/lal/pkg/remux"
 
 	"lalverif/proj"
 )
@@ -32,6 +33,8 @@ type flvScenario struct {
 }
 
 func init() { Registry["flv"] = flvDriver }
+
+var sdfPrefixBytes = []byte{2, 0, 13, '@', 's', 'e', 't', 'D', 'a', 't', 'a', 'F', 'r', 'a', 'm', 'e'}
 
 func lalReadBack(raw []byte) M {
 	tag, err := httpflv.ReadTag(bytes.NewReader(raw))
@@ -84,6 +87,33 @@ func flvDriver(env *Env) error {
 				}
 				tw.Emit(M{"ev": "Func", "t": st.T, "n": st.N, "ts": st.Ts, "fields": f,
 					"payloadOk": bytes.Equal(p, payload), "lal": lalReadBack(b), "total": total})
+				// the same tag through the producers the live paths use: remux.RtmpMsg2FlvTag and the lazy
+				// converter of Group.broadcastByRtmpMsg (original form; for metadata also the form with the
+				// @setDataFrame string stripped, which must describe the stripped payload)
+				mk := func(pl []byte) base.RtmpMsg {
+					return base.RtmpMsg{Header: base.RtmpHeader{Csid: 6, MsgLen: uint32(len(pl)), MsgTypeId: uint8(st.T), MsgStreamId: 1,
+						TimestampAbs: proj.FromLimbs(st.Ts)}, Payload: pl}
+				}
+				emitVia := func(b2 []byte) {
+					f2, p2, total2 := proj.ParseFlvTag(b2)
+					if f2 == nil {
+						f2 = &proj.FlvTagFields{Type: -1}
+					}
+					tw.Emit(M{"ev": "Func", "t": st.T, "n": st.N, "ts": st.Ts, "fields": f2,
+						"payloadOk": bytes.Equal(p2, payload), "lal": lalReadBack(b2), "total": total2})
+				}
+				if st.N < 1<<20 {
+					emitVia(remux.RtmpMsg2FlvTag(mk(payload)).Raw)
+					var lz remux.LazyRtmpMsg2FlvTag
+					lz.Init(mk(payload))
+					emitVia(lz.GetEnsureWithoutSdf())
+					if st.T == 18 {
+						with := append(append([]byte{}, sdfPrefixBytes...), payload...)
+						var lz2 remux.LazyRtmpMsg2FlvTag
+						lz2.Init(mk(with))
+						emitVia(lz2.GetEnsureWithoutSdf())
+					}
+				}
 				// re-timestamp the tag in place (Tag.ModTagTimestamp) to the previous step's timestamp
 				if i > 0 {
 					ts2 := sc.Steps[i-1].Ts
